@@ -216,6 +216,7 @@ pub fn recheck_pick(seed: u64, idx: u64, every: u64) -> bool {
 pub fn worker_main(engine: &dyn Engine, args: &[String]) -> i32 {
     // worker <prop> <tier> <seed> <start> <count> [--track FILE LEVEL] [--digests FILE] [--recheck-every N] [--only a,b,c]
     let tier = Tier::parse(&args[1]);
+    crate::types::THOROUGH.store(tier == Tier::Thorough, Ordering::Relaxed);
     let seed: u64 = args[2].parse().unwrap();
     let start: u64 = args[3].parse().unwrap();
     let count: u64 = args[4].parse().unwrap();
